@@ -83,6 +83,95 @@ mod operation;
 pub mod test_utils;
 pub mod traits;
 
+/// Verification hook (add-only): the group state functions and the fields of the member state
+/// are crate-private; this module exposes them to the verification harness unchanged.
+#[cfg(p2panda_p2panda_verif)]
+#[doc(hidden)]
+pub mod verif {
+    use std::hash::Hash;
+
+    use std::collections::{HashMap, HashSet};
+
+    pub use crate::group::crdt::state::{add, create, demote, merge, promote, remove};
+    use crate::group::{
+        GroupAction, GroupMember, GroupMembersState, MemberState, StateChangeResult,
+    };
+    use crate::traits::{Conditions, IdentityHandle, OperationId};
+    use crate::Access;
+
+    /// `crdt::apply_action` (crate-private).
+    pub fn apply_action<ID, OP, C>(
+        groups_y: HashMap<ID, GroupMembersState<GroupMember<ID>, C>>,
+        group_id: ID,
+        id: OP,
+        actor: ID,
+        action: &GroupAction<ID, C>,
+        filter: &HashSet<OP>,
+    ) -> StateChangeResult<ID, C>
+    where
+        ID: IdentityHandle,
+        OP: OperationId + Ord,
+        C: Conditions,
+    {
+        crate::group::crdt::apply_action(groups_y, group_id, id, actor, action, filter)
+    }
+
+    /// `crdt::apply_remove_unsafe` (crate-private).
+    pub fn apply_remove_unsafe<ID, C>(
+        groups_y: HashMap<ID, GroupMembersState<GroupMember<ID>, C>>,
+        group_id: ID,
+        removed: GroupMember<ID>,
+    ) -> HashMap<ID, GroupMembersState<GroupMember<ID>, C>>
+    where
+        ID: IdentityHandle,
+        C: Conditions,
+    {
+        crate::group::crdt::apply_remove_unsafe(groups_y, group_id, removed)
+    }
+
+    /// Build a member state from its three fields.
+    pub fn member_state<C>(
+        member_counter: usize,
+        access: Access<C>,
+        access_counter: usize,
+    ) -> MemberState<C> {
+        MemberState {
+            member_counter,
+            access,
+            access_counter,
+        }
+    }
+
+    /// The three fields of a member state.
+    pub fn member_state_parts<C: Clone>(state: &MemberState<C>) -> (usize, Access<C>, usize) {
+        (
+            state.member_counter,
+            state.access.clone(),
+            state.access_counter,
+        )
+    }
+
+    /// Build a group members state from its entries.
+    pub fn members_state<ID: Hash + Eq, C>(
+        entries: Vec<(ID, MemberState<C>)>,
+    ) -> GroupMembersState<ID, C> {
+        GroupMembersState {
+            members: entries.into_iter().collect(),
+        }
+    }
+
+    /// All entries (active and inactive) of a group members state, in map iteration order.
+    pub fn members_state_entries<ID: Hash + Eq + Clone, C: Clone>(
+        state: &GroupMembersState<ID, C>,
+    ) -> Vec<(ID, (usize, Access<C>, usize))> {
+        state
+            .members
+            .iter()
+            .map(|(id, m)| (id.clone(), member_state_parts(m)))
+            .collect()
+    }
+}
+
 pub use access::{Access, AccessError, AccessLevel};
 pub use extension::GroupsExtensionArgs;
 pub use operation::GroupsOperation;
